@@ -24,6 +24,9 @@ CONFIGS = {
               "-DCONFIG_MAX_MESSAGE_SIZE=64", "-DCONFIG_MAX_WRITE_BUFFER_SIZE=256",
               "-DCONFIG_MAX_NUMBERS_OF_MATCHERS_IN_FETCH=1", "-DCONFIG_INITIAL_FETCH_TABLE_SIZE=1"],
     "order5": ["-DCONFIG_ELEMENT_TABLE_ORDER=5", "-DCONFIG_ROUTING_TABLE_ORDER=5"],
+    # plain char unsigned, as on the ARM and PowerPC targets the project ships toolchain files for (cmake/arm_gcc.cmake,
+    # cmake/ppc_gcc.cmake); used by the rules that look at bytes of text (C18)
+    "uchar": ["-DCMAKE_C_FLAGS=-funsigned-char"],
 }
 QUICK_CONFIGS = ["default", "localadd"]
 THOROUGH_CONFIGS = ["default", "localadd", "small", "order5"]
